@@ -183,11 +183,26 @@ Definition client_parse (v11 : bool) (meth : str) (s : str) : option (obs * str)
   | Some (fields, rest1) => client_body v11 meth code fields (mkObs M m code reason fields) rest1
   end end end.
 
-(* a persistent connection: the k-th response answers the k-th request *)
+(* interim responses (RFC 7231 6.2): any number of 1xx responses other than 101 may precede the
+   final response to a request; a client skips them *)
+Definition interim (code : N) : bool := (code / 100 =? 1) && negb (code =? 101).
+Fixpoint client_parse_skip (fuel : nat) (v11 : bool) (meth : str) (s : str) : option (obs * str) :=
+  match fuel with
+  | O => None
+  | S f => match client_parse v11 meth s with
+           | Some (o, rest) => if interim (o_code o) then client_parse_skip f v11 meth rest else Some (o, rest)
+           | None => None
+           end
+  end.
+(* the final response to the next request *)
+Definition client_next (v11 : bool) (meth : str) (s : str) : option (obs * str) :=
+  client_parse_skip (S (length s)) v11 meth s.
+
+(* a persistent connection: the k-th (final) response answers the k-th request *)
 Fixpoint client_parse_seq (v11 : bool) (meths : list str) (s : str) : option (list obs * str) :=
   match meths with
   | [] => Some ([], s)
-  | m :: ms => match client_parse v11 m s with
+  | m :: ms => match client_next v11 m s with
                | None => None
                | Some (o, rest) => match client_parse_seq v11 ms rest with
                                    | Some (os, rest') => Some (o :: os, rest')
